@@ -859,16 +859,935 @@ fn enumerate(t: Tier) -> Box<dyn Iterator<Item = Case>> {
     Box::new(a.chain(b))
 }
 
+// ---------------------------------------------------------------------------
+// Large-scale sub-checks (`C07/large-*`): number of stored intervals (array-backed tree: every
+// 2^k-1, 2^k, 2^k+1 up to 2^20+1 and the common ladder; AVL tree: up to 2^20+1 insertions with the
+// structure observed at every ladder size up to 131073), number of results of one query, interval
+// width, number of reference ids of the annotation map. Cases hold generator parameters and a seed.
+//
+// Oracle (near-linear): every entry carries a unique id as data. For a query [qs,qe) the expected
+// NUMBER of overlapping entries is #(start < qe) - #(end <= qs) (two binary searches over sorted
+// copies; valid because start < end for every entry). The returned entries are checked one by one:
+// id known and currently inserted, reported interval = the interval inserted under that id, overlaps
+// the query, no id twice. Right count + valid + distinct = exactly the expected multiset.
+
+pub mod large {
+    use super::*;
+    use crate::oracles::scale::c071718::{intern, is_ladder, lab, labels, ladder_upto, leak_list, pow2_triples, sample_positions, watched, Rng, LADDER};
+    use std::iter::FromIterator;
+
+    #[derive(Serialize, Deserialize, Debug, Clone, Copy, PartialEq, Eq)]
+    pub enum Target {
+        /// ArrayBackedIntervalTree: new, n inserts, index, queries; `more` inserts, refusal, re-index, queries
+        Array,
+        /// the same, the first n entries through FromIterator (indexes by itself)
+        ArrayFromIter,
+        /// IntervalTree: inserts one by one, structure and queries at every ladder size, at n and at n+more
+        Avl,
+        /// IntervalTree::from_iter over the first n entries, then `more` single inserts
+        AvlFromIter,
+        /// AnnotMap (insert_at and insert_loc) with `refids` reference ids
+        Annot,
+    }
+
+    #[derive(Serialize, Deserialize, Debug, Clone, Copy, PartialEq, Eq)]
+    pub enum Pat {
+        /// [i, i+1): a query of width m returns exactly m entries
+        Unit,
+        /// [i, i+w), w from {3, 1000, 70000} by seed
+        Wide,
+        /// [i, 2N-i): entry 0 contains everything; queries on the right reach only the left-most entries
+        Nested,
+        /// [2i, 2i+1) with a few hundred entries (first, last, around every ladder index and power of two) reaching far to the right
+        Spikes,
+        /// random starts in 0..2N, widths 1..=W (W from {1,30,5000} by seed), one in 64 up to 2^40
+        Random,
+        /// all starts equal, ends distinct
+        EqualStarts,
+        /// N copies of the same interval (ids differ)
+        Identical,
+        /// every interval 300 times
+        Dups,
+    }
+    pub const PATS: [Pat; 8] = [Pat::Unit, Pat::Spikes, Pat::Random, Pat::Wide, Pat::Nested, Pat::Dups, Pat::EqualStarts, Pat::Identical];
+
+    #[derive(Serialize, Deserialize, Debug, Clone, Copy, PartialEq, Eq)]
+    pub enum Order {
+        /// insertion in canonical order (ascending starts for most patterns)
+        Asc,
+        Desc,
+        Shuffle,
+    }
+    pub const ORDERS: [Order; 3] = [Order::Asc, Order::Desc, Order::Shuffle];
+
+    #[derive(Serialize, Deserialize, Debug, Clone, Copy, PartialEq, Eq)]
+    pub enum Offset {
+        Zero,
+        /// coordinates straddle zero
+        Straddle,
+        /// smallest coordinate = i64::MIN
+        Min,
+        /// largest coordinate = i64::MAX
+        Top,
+    }
+
+    #[derive(Serialize, Deserialize, Debug, Clone)]
+    pub struct Case {
+        pub target: Target,
+        /// entries before the first round of queries
+        pub n: u32,
+        /// entries inserted afterwards
+        pub more: u32,
+        pub pat: Pat,
+        pub order: Order,
+        pub offset: Offset,
+        /// AnnotMap only: number of reference ids (entry id goes to reference id mod refids)
+        pub refids: u32,
+        /// AVL only: observe the structure at every ladder size up to 131073 (otherwise at n, n+more and every sixth ladder size)
+        pub observe_all: bool,
+        pub seed: u64,
+    }
+
+    const LO: i64 = 10; // smallest relative start; [0, LO) is left of everything
+
+    struct World {
+        /// absolute (start, end) by canonical id
+        iv: Vec<(i64, i64)>,
+        /// canonical ids in insertion order
+        order: Vec<u32>,
+        /// rank of an id in the insertion order
+        when: Vec<u32>,
+        shift: i64,
+        /// relative universe [0, u)
+        u: i64,
+        /// relative coordinate where the spike ends start (Spikes only)
+        big: i64,
+        nspikes: usize,
+    }
+
+    fn build(c: &Case) -> World {
+        let nn = (c.n + c.more) as usize;
+        let n64 = nn as i64;
+        let mut rng = Rng::new(c.seed);
+        let mut iv: Vec<(i64, i64)> = Vec::with_capacity(nn);
+        let mut big = 0i64;
+        let mut nspikes = 0usize;
+        match c.pat {
+            Pat::Unit => iv.extend((0..n64).map(|i| (LO + i, LO + i + 1))),
+            Pat::Wide => {
+                let w = [3i64, 1000, 70_000][(c.seed % 3) as usize];
+                iv.extend((0..n64).map(|i| (LO + i, LO + i + w)));
+            }
+            Pat::Nested => iv.extend((0..n64).map(|i| (LO + i, LO + 2 * n64 - i))),
+            Pat::Spikes => {
+                big = LO + 2 * n64 + 1000;
+                let pows: Vec<u64> = (1..=21).flat_map(|k| [(1u64 << k) - 1, 1 << k]).collect();
+                let mut sp = sample_positions(nn as u64, &pows, &mut rng, 12);
+                if sp.len() > 400 {
+                    let step = sp.len().div_ceil(400);
+                    let last = *sp.last().unwrap();
+                    sp = sp.into_iter().step_by(step).collect();
+                    if *sp.last().unwrap() != last {
+                        sp.push(last);
+                    }
+                }
+                nspikes = sp.len();
+                // ends: distinct, in pseudo-random order relative to the index
+                let mut ranks: Vec<i64> = (0..sp.len() as i64).collect();
+                rng.shuffle(&mut ranks);
+                iv.extend((0..n64).map(|i| (LO + 2 * i, LO + 2 * i + 1)));
+                for (j, &p) in sp.iter().enumerate() {
+                    iv[p as usize].1 = big + 1 + ranks[j];
+                }
+            }
+            Pat::Random => {
+                let w = [1u64, 30, 5000][(c.seed % 3) as usize];
+                for _ in 0..nn {
+                    let s = LO + rng.below(2 * nn as u64) as i64;
+                    let width = if rng.below(64) == 0 { 1 + rng.below(1 << 40) } else { 1 + rng.below(w) } as i64;
+                    iv.push((s, s + width));
+                }
+            }
+            Pat::EqualStarts => iv.extend((0..n64).map(|i| (LO + 7, LO + 8 + i))),
+            Pat::Identical => iv.extend((0..n64).map(|_| (LO + 5, LO + 9))),
+            Pat::Dups => iv.extend((0..n64).map(|i| (LO + i / 300, LO + i / 300 + 2))),
+        }
+        let maxend = iv.iter().map(|x| x.1).max().unwrap_or(LO + 1);
+        let u = maxend + 10;
+        let shift = match c.offset {
+            Offset::Zero => 0,
+            Offset::Straddle => -(u / 2),
+            Offset::Min => i64::MIN,
+            Offset::Top => i64::MAX - u,
+        };
+        for x in iv.iter_mut() {
+            *x = (x.0 + shift, x.1 + shift);
+        }
+        let mut order: Vec<u32> = (0..nn as u32).collect();
+        match c.order {
+            Order::Asc => {}
+            Order::Desc => order.reverse(),
+            Order::Shuffle => Rng::new(c.seed ^ 0x0dd).shuffle(&mut order),
+        }
+        let mut when = vec![0u32; nn];
+        for (t, &id) in order.iter().enumerate() {
+            when[id as usize] = t as u32;
+        }
+        World { iv, order, when, shift, u, big, nspikes }
+    }
+
+    /// sorted starts and ends of the first `cur` inserted entries
+    struct Oracle {
+        starts: Vec<i64>,
+        ends: Vec<i64>,
+    }
+    impl Oracle {
+        fn new(w: &World, cur: usize) -> Oracle {
+            let mut starts: Vec<i64> = w.order[..cur].iter().map(|&id| w.iv[id as usize].0).collect();
+            let mut ends: Vec<i64> = w.order[..cur].iter().map(|&id| w.iv[id as usize].1).collect();
+            starts.sort_unstable();
+            ends.sort_unstable();
+            Oracle { starts, ends }
+        }
+        fn count(&self, qs: i64, qe: i64) -> usize {
+            self.starts.partition_point(|&s| s < qe) - self.ends.partition_point(|&e| e <= qs)
+        }
+    }
+
+    /// queries in absolute coordinates; the first `must` of them are always asked, the others while the result budget lasts
+    fn queries(c: &Case, w: &World, or: &Oracle, cur: usize, rng: &mut Rng, light: bool) -> (Vec<(i64, i64)>, usize) {
+        let sh = w.shift;
+        let mut q: Vec<(i64, i64)> = Vec::new();
+        let rel = |a: i64, b: i64| (a + sh, b + sh);
+        q.push(rel(0, w.u)); // everything
+        q.push(rel(0, 5)); // left of everything
+        q.push(rel(w.u - 6, w.u - 1)); // right of everything
+        q.push(rel(LO - 1, LO)); // abuts the smallest start
+        if c.pat == Pat::Spikes {
+            for r in [0i64, 1, 2, w.nspikes as i64 / 2, w.nspikes as i64 - 2, w.nspikes as i64 - 1, w.nspikes as i64] {
+                if r >= 0 {
+                    q.push(rel(w.big + r, w.big + r + 1));
+                }
+            }
+            q.push(rel(w.big - 5, w.big - 4));
+        }
+        let must = q.len();
+        // result-count ladder: a window over the sorted starts holding m starts (exactly m results for the unit
+        // pattern); largest first, asked while the result budget lasts
+        let counts: Vec<u64> = ladder_upto(cur as u64);
+        let pick: Vec<u64> = if light { Vec::new() } else { counts.into_iter().rev().collect() };
+        for &m in &pick {
+            let m = m as usize;
+            let a = rng.below((cur - m + 1) as u64) as usize;
+            q.push((or.starts[a], or.starts[a + m - 1].saturating_add(1).max(or.starts[a] + 1)));
+        }
+        // around sampled entries (by rank of the start): left-most / right-most leaf blocks, the root, ladder indices
+        let pows: Vec<u64> = (4..=21).flat_map(|k| [(1u64 << k) - 1, 1 << k]).collect();
+        let mut pos = sample_positions(cur as u64, &pows, rng, if light { 4 } else { 40 });
+        if light && pos.len() > 24 {
+            let step = pos.len().div_ceil(24);
+            pos = pos.into_iter().step_by(step).collect();
+        }
+        for p in pos {
+            let s = or.starts[p as usize];
+            let e = or.ends[p as usize];
+            q.push((s, s.saturating_add(1)));
+            if s > i64::MIN {
+                q.push((s - 1, s));
+            }
+            q.push((e - 1, e));
+            if e < i64::MAX {
+                q.push((e, e + 1));
+            }
+        }
+        // random windows
+        for _ in 0..(if light { 6 } else { 40 }) {
+            let a = rng.below(w.u as u64) as i64;
+            let width = [1i64, 2, 17, 1000, 70_000][rng.below(5) as usize];
+            let b = (a + width).min(w.u);
+            if a < b {
+                q.push(rel(a, b));
+            }
+        }
+        (q, must)
+    }
+
+    struct Seen {
+        stamp: Vec<u32>,
+        now: u32,
+    }
+
+    /// validate one result list against the oracle
+    #[allow(clippy::too_many_arguments)]
+    fn validate(what: &str, c: &Case, w: &World, cur: usize, q: (i64, i64), expect: usize, got: &[(i64, i64, u32)], seen: &mut Seen) -> Result<(), Stop> {
+        seen.now += 1;
+        for &(s, e, id) in got {
+            let idu = id as usize;
+            ensure!(idu < w.iv.len() && (w.when[idu] as usize) < cur, "{}: query {}..{} on {} entries returned data {} which is not an inserted id; {:?}", what, q.0, q.1, cur, id, c);
+            ensure!(w.iv[idu] == (s, e), "{}: query {}..{} on {} entries returned {}..{} with data {}, but id {} was inserted as {}..{}; {:?}", what, q.0, q.1, cur, s, e, id, id, w.iv[idu].0, w.iv[idu].1, c);
+            ensure!(overlaps(s, e, q.0, q.1), "{}: query {}..{} on {} entries returned {}..{} (id {}), which does not overlap; {:?}", what, q.0, q.1, cur, s, e, id, c);
+            ensure!(seen.stamp[idu] != seen.now, "{}: query {}..{} on {} entries returned id {} ({}..{}) twice; {:?}", what, q.0, q.1, cur, id, s, e, c);
+            seen.stamp[idu] = seen.now;
+        }
+        if got.len() != expect {
+            // name one missing entry
+            let missing = w.order[..cur].iter().find(|&&id| {
+                let (s, e) = w.iv[id as usize];
+                overlaps(s, e, q.0, q.1) && seen.stamp[id as usize] != seen.now
+            });
+            fail!(
+                "{}: query {}..{} on {} entries returned {} entries, expected {} (#start<qe - #end<=qs); first missing entry: {:?}; {:?}",
+                what,
+                q.0,
+                q.1,
+                cur,
+                got.len(),
+                expect,
+                missing.map(|&id| (id, w.iv[id as usize])),
+                c
+            );
+        }
+        Ok(())
+    }
+
+    fn result_classes(pass: &mut Pass, cnt: usize, cur: usize) {
+        if is_ladder(cnt as u64) {
+            pass.add(lab("results of one query", cnt as u64));
+        }
+        pass.add_if(cnt > 512, "results of one query > 512");
+        pass.add_if(cnt > 65_536, "results of one query > 65536");
+        pass.add_if(cnt == cur && cur > 65_536, "query returns all of > 65536 entries");
+        pass.add_if(cnt > 0 && cnt < cur, "query overlaps some, excludes some");
+        pass.add_if(cnt == 0, "query overlaps none");
+    }
+
+    // -- structure of a large AVL tree -------------------------------------------------------
+
+    struct BigWalk {
+        count: usize,
+        prev_start: Option<i64>,
+        ids: Vec<u32>,
+    }
+
+    /// typed mirror of the derived Serialize output; `left`/`right`/`root` must be present explicitly (a missing key is
+    /// an error, not `None`), unknown keys are an error: a changed shape is "observation lost", never a verdict
+    #[derive(Deserialize, Debug)]
+    #[serde(deny_unknown_fields)]
+    struct LNode {
+        interval: MRange,
+        value: i64,
+        max: i64,
+        #[allow(dead_code)]
+        height: i64,
+        #[serde(deserialize_with = "req_child")]
+        left: Option<Box<LNode>>,
+        #[serde(deserialize_with = "req_child")]
+        right: Option<Box<LNode>>,
+    }
+    #[derive(Deserialize, Debug)]
+    #[serde(deny_unknown_fields)]
+    struct LTree {
+        #[serde(deserialize_with = "req_root")]
+        root: Option<LNode>,
+    }
+    fn req_child<'de, D: serde::Deserializer<'de>>(d: D) -> Result<Option<Box<LNode>>, D::Error> {
+        Option::<Box<LNode>>::deserialize(d)
+    }
+    fn req_root<'de, D: serde::Deserializer<'de>>(d: D) -> Result<Option<LNode>, D::Error> {
+        Option::<LNode>::deserialize(d)
+    }
+
+    fn walk_big(n: &LNode, bw: &mut BigWalk, w: &World, cur: usize, c: &Case) -> Result<(i64, i64), Stop> {
+        let (lh, lm) = match &n.left {
+            Some(l) => {
+                let (h, m) = walk_big(l, bw, w, cur, c)?;
+                (h, Some(m))
+            }
+            None => (0, None),
+        };
+        bw.count += 1;
+        if let Some(p) = bw.prev_start {
+            ensure!(p <= n.interval.start, "AVL in-order starts decrease ({} before {}) after {} insertions; {:?}", p, n.interval.start, cur, c);
+        }
+        bw.prev_start = Some(n.interval.start);
+        ensure!(n.value >= 0 && (n.value as usize) < w.iv.len() && (w.when[n.value as usize] as usize) < cur, "AVL node holds data {} which is not an inserted id ({} insertions); {:?}", n.value, cur, c);
+        ensure!(w.iv[n.value as usize] == (n.interval.start, n.interval.end), "AVL node {}..{} holds id {}, inserted as {:?} ({} insertions); {:?}", n.interval.start, n.interval.end, n.value, w.iv[n.value as usize], cur, c);
+        bw.ids.push(n.value as u32);
+        let (rh, rm) = match &n.right {
+            Some(r) => {
+                let (h, m) = walk_big(r, bw, w, cur, c)?;
+                (h, Some(m))
+            }
+            None => (0, None),
+        };
+        ensure!((lh - rh).abs() <= 1, "AVL balance violated at node {}..{} after {} insertions: height(left)={} height(right)={}; {:?}", n.interval.start, n.interval.end, cur, lh, rh, c);
+        let mut m = n.interval.end;
+        if let Some(x) = lm {
+            m = m.max(x);
+        }
+        if let Some(x) = rm {
+            m = m.max(x);
+        }
+        ensure!(n.max >= m, "AVL node {}..{} after {} insertions: stored max {} is smaller than the largest end {} in its subtree; {:?}", n.interval.start, n.interval.end, cur, n.max, m, c);
+        Ok((1 + lh.max(rh), m))
+    }
+
+    fn structure(tree: &IntervalTree<i64, u32>, w: &World, cur: usize, c: &Case) -> Result<i64, Stop> {
+        // same observation as C07/history (the derived Serialize impl), but through JSON text into a typed mirror:
+        // a serde_json::Value of 10^5 nodes would cost several microseconds and a kilobyte per node
+        let text = match serde_json::to_vec(tree) {
+            Ok(v) => v,
+            Err(e) => fail!("observation lost: IntervalTree does not serialise: {}", e),
+        };
+        let t: LTree = match serde_json::from_slice::<LTree>(&text) {
+            Ok(t) => t,
+            Err(e) if e.to_string().contains("recursion limit") => {
+                // a tree deeper than serde_json's text parser accepts (far beyond any AVL height at these sizes):
+                // take the slow path without a depth limit so that the walk below can report what is wrong
+                let v = match serde_json::to_value(tree) {
+                    Ok(v) => v,
+                    Err(e) => fail!("observation lost: IntervalTree does not serialise: {}", e),
+                };
+                match LTree::deserialize(&v) {
+                    Ok(t) => t,
+                    Err(e) => fail!("observation lost: serialised IntervalTree has an unexpected shape ({})", e),
+                }
+            }
+            Err(e) => {
+                let s = String::from_utf8_lossy(&text[..text.len().min(300)]).into_owned();
+                fail!("observation lost: serialised IntervalTree has an unexpected shape ({}): {}", e, s)
+            }
+        };
+        drop(text);
+        let mut bw = BigWalk { count: 0, prev_start: None, ids: Vec::with_capacity(cur) };
+        let h = match &t.root {
+            Some(r) => walk_big(r, &mut bw, w, cur, c)?.0,
+            None => 0,
+        };
+        ensure!(bw.count == cur, "AVL tree has {} nodes after {} insertions; {:?}", bw.count, cur, c);
+        bw.ids.sort_unstable();
+        ensure!(bw.ids.windows(2).all(|p| p[0] != p[1]), "AVL tree holds an id twice after {} insertions; {:?}", cur, c);
+        ensure!((bw.count as u64) >= min_nodes(h), "AVL height {} needs at least {} nodes but the tree has {}; {:?}", h, min_nodes(h), bw.count, c);
+        Ok(h)
+    }
+
+    /// structure is observed up to this many nodes (the serde_json mirror of a larger tree costs too much memory)
+    const STRUCT_MAX: usize = 131_073;
+
+    macro_rules! arr_triples {
+        ($v:expr) => {
+            $v.iter().map(|e| (e.interval().start, e.interval().end, *e.data())).collect::<Vec<(i64, i64, u32)>>()
+        };
+    }
+
+    fn arr_refused(tree: &ArrayBackedIntervalTree<i64, u32>, q: (i64, i64), when: &str, c: &Case) -> Result<(), Stop> {
+        let r = catch(|| tree.find(q.0..q.1).len());
+        ensure!(r.is_err(), "ArrayBackedIntervalTree::find on an un-indexed tree ({}) was not refused: returned {} entries; {:?}", when, r.unwrap_or(0), c);
+        let r = catch(|| {
+            let mut b = Vec::new();
+            tree.find_into(q.0..q.1, &mut b);
+            b.len()
+        });
+        ensure!(r.is_err(), "ArrayBackedIntervalTree::find_into on an un-indexed tree ({}) was not refused: returned {} entries; {:?}", when, r.unwrap_or(0), c);
+        Ok(())
+    }
+
+    fn arr_round(tree: &ArrayBackedIntervalTree<i64, u32>, c: &Case, w: &World, cur: usize, rng: &mut Rng, seen: &mut Seen, pass: &mut Pass, what: &str) -> Result<(), Stop> {
+        let or = Oracle::new(w, cur);
+        let (qs, must) = queries(c, w, &or, cur, rng, false);
+        let budget = 6 * cur + 200_000;
+        let mut spent = 0usize;
+        // one buffer reused by every find_into call of the round (the call must replace its content)
+        let mut buf = tree.find(w.shift..w.shift + 5);
+        for (qi, &q) in qs.iter().enumerate() {
+            let expect = or.count(q.0, q.1);
+            if qi >= must && spent + expect > budget {
+                continue;
+            }
+            spent += expect;
+            let got = arr_triples!(tree.find(q.0..q.1));
+            validate(&format!("ArrayBackedIntervalTree::find ({})", what), c, w, cur, q, expect, &got, seen)?;
+            tree.find_into(q.0..q.1, &mut buf);
+            let got = arr_triples!(buf);
+            validate(&format!("ArrayBackedIntervalTree::find_into ({})", what), c, w, cur, q, expect, &got, seen)?;
+            result_classes(pass, expect, cur);
+        }
+        let n = cur as u64;
+        if is_ladder(n) || (n >= 2 && (n.is_power_of_two() || (n + 1).is_power_of_two() || (n - 1).is_power_of_two())) {
+            pass.add(lab("array n", n));
+        }
+        pass.add_if(cur > 65_536, "array: indexed and queried with n > 65536");
+        pass.add_if(cur >= 1 << 20, "array: indexed and queried with n >= 2^20");
+        Ok(())
+    }
+
+    fn avl_round(tree: &mut IntervalTree<i64, u32>, c: &Case, w: &World, cur: usize, rng: &mut Rng, seen: &mut Seen, pass: &mut Pass, light: bool) -> Result<(), Stop> {
+        let or = Oracle::new(w, cur);
+        let (qs, must) = queries(c, w, &or, cur, rng, light);
+        let budget = if light { 2 * cur + 50_000 } else { 4 * cur + 200_000 };
+        let mut spent = 0usize;
+        for (qi, &q) in qs.iter().enumerate() {
+            let expect = or.count(q.0, q.1);
+            if qi >= must.min(if light { 6 } else { must }) && spent + expect > budget {
+                continue;
+            }
+            spent += expect;
+            let got: Vec<(i64, i64, u32)> = tree.find(q.0..q.1).take(cur + 2).map(|e| (e.interval().start, e.interval().end, *e.data())).collect();
+            validate("IntervalTree::find", c, w, cur, q, expect, &got, seen)?;
+            let mut got: Vec<(i64, i64, u32)> = Vec::with_capacity(expect);
+            for mut e in tree.find_mut(q.0..q.1).take(cur + 2) {
+                let (s, t) = (e.interval().start, e.interval().end);
+                let d: u32 = *e.data();
+                got.push((s, t, d));
+            }
+            validate("IntervalTree::find_mut", c, w, cur, q, expect, &got, seen)?;
+            result_classes(pass, expect, cur);
+        }
+        Ok(())
+    }
+
+    pub fn check(c: &Case) -> R {
+        watched(serde_json::to_string(c).unwrap_or_default(), || check_inner(c))
+    }
+
+    fn check_inner(c: &Case) -> R {
+        let n = c.n as usize;
+        let nn = n + c.more as usize;
+        ensure!(n >= 1 && nn <= (1 << 20) + 64, "harness: n={} more={} outside the supported range", c.n, c.more);
+        ensure!(c.target != Target::Annot || (c.refids >= 1 && nn <= 150_000), "harness: annotation map case too large or without reference ids");
+        let w = build(c);
+        let mut rng = Rng::new(c.seed ^ 0x9e7);
+        let mut seen = Seen { stamp: vec![0u32; nn], now: 0 };
+        let mut pass = Pass::new(true);
+        match c.target {
+            Target::Array | Target::ArrayFromIter => {
+                let probe = (w.shift, w.shift + 5);
+                let mut tree: ArrayBackedIntervalTree<i64, u32>;
+                if c.target == Target::Array {
+                    tree = ArrayBackedIntervalTree::new();
+                    arr_refused(&tree, probe, "fresh", c)?;
+                    for &id in &w.order[..n] {
+                        let (s, e) = w.iv[id as usize];
+                        tree.insert(s..e, id);
+                    }
+                    arr_refused(&tree, probe, "after the first inserts", c)?;
+                    tree.index();
+                } else {
+                    tree = ArrayBackedIntervalTree::from_iter(w.order[..n].iter().map(|&id| {
+                        let (s, e) = w.iv[id as usize];
+                        (s..e, id)
+                    }));
+                    pass.add("array: from_iter");
+                    pass.add_if(n > 65_536, "array: from_iter with n > 65536");
+                }
+                arr_round(&tree, c, &w, n, &mut rng, &mut seen, &mut pass, "first index")?;
+                if c.more > 0 {
+                    for &id in &w.order[n..nn] {
+                        let (s, e) = w.iv[id as usize];
+                        tree.insert(s..e, id);
+                    }
+                    arr_refused(&tree, probe, "after inserts that follow index()", c)?;
+                    tree.index();
+                    arr_round(&tree, c, &w, nn, &mut rng, &mut seen, &mut pass, "re-index after more inserts")?;
+                    pass.add("array: re-index after more inserts");
+                    pass.add_if(nn > 65_536, "array: re-index after more inserts, n > 65536");
+                }
+            }
+            Target::Avl | Target::AvlFromIter => {
+                let mut tree: IntervalTree<i64, u32>;
+                let mut done = 0usize;
+                if c.target == Target::AvlFromIter {
+                    tree = IntervalTree::from_iter(w.order[..n].iter().map(|&id| {
+                        let (s, e) = w.iv[id as usize];
+                        (s..e, id)
+                    }));
+                    done = n;
+                    pass.add("avl: from_iter");
+                    pass.add_if(n > 65_536, "avl: from_iter with n > 65536");
+                } else {
+                    tree = IntervalTree::new();
+                }
+                let mut checkpoints: Vec<usize> = ladder_upto(nn as u64).into_iter().map(|v| v as usize).filter(|&v| v >= done.max(1)).collect();
+                checkpoints.push(n);
+                checkpoints.push(nn);
+                checkpoints.sort_unstable();
+                checkpoints.dedup();
+                let mut height = 0i64;
+                for (ci, cp) in checkpoints.into_iter().enumerate() {
+                    if cp < done {
+                        continue;
+                    }
+                    for &id in &w.order[done..cp] {
+                        let (s, e) = w.iv[id as usize];
+                        tree.insert(s..e, id);
+                    }
+                    done = cp;
+                    if cp <= STRUCT_MAX && (c.observe_all || cp == n || cp == nn || (ci as u64 + c.seed) % 6 == 0) {
+                        height = structure(&tree, &w, cp, c)?;
+                        pass.add(lab("avl structure observed at n", cp as u64));
+                    }
+                    let light = cp != n && cp != nn;
+                    avl_round(&mut tree, c, &w, cp, &mut rng, &mut seen, &mut pass, light)?;
+                    if is_ladder(cp as u64) {
+                        pass.add(lab("avl n", cp as u64));
+                    }
+                }
+                pass.add_if(nn > 65_536, "avl: queried with n > 65536");
+                pass.add_if(nn >= 1 << 20, "avl: queried with n >= 2^20");
+                pass.add_if(height >= 12, "AVL height >= 12");
+                pass.add_if(height >= 17, "AVL height >= 17");
+            }
+            Target::Annot => {
+                let r = c.refids as usize;
+                let name = |j: usize| format!("ref{}", j);
+                let mut amap: AnnotMap<String, u32> = AnnotMap::new();
+                let mut lmap: AnnotMap<String, Contig<String, ReqStrand>> = AnnotMap::new();
+                let mut done = 0usize;
+                for (round, cp) in [n, nn].into_iter().enumerate() {
+                    if round == 1 && c.more == 0 {
+                        break;
+                    }
+                    for &id in &w.order[done..cp] {
+                        let (s, e) = w.iv[id as usize];
+                        let loc = Contig::new(name(id as usize % r), s as isize, (e as i128 - s as i128) as usize, strand_of(id as u8));
+                        amap.insert_at(id, &loc);
+                        lmap.insert_loc(loc);
+                    }
+                    done = cp;
+                    // group the inserted ids by reference
+                    let mut refs: Vec<u64> = sample_positions(r as u64, &[], &mut rng, 8);
+                    if refs.len() > 40 {
+                        let step = refs.len().div_ceil(40);
+                        refs = refs.into_iter().step_by(step).collect();
+                    }
+                    let or = Oracle::new(&w, cp);
+                    let (qs, must) = queries(c, &w, &or, cp, &mut rng, true);
+                    let mut spent = 0usize;
+                    for &rj in &refs {
+                        let rname = name(rj as usize);
+                        let members: Vec<u32> = w.order[..cp].iter().copied().filter(|&id| id as usize % r == rj as usize).collect();
+                        for (qi, &q) in qs.iter().enumerate() {
+                            let expect: Vec<u32> = members.iter().copied().filter(|&id| overlaps(w.iv[id as usize].0, w.iv[id as usize].1, q.0, q.1)).collect();
+                            if qi >= must.min(4) && (spent > 4 * cp + 100_000 || (refs.len() > 8 && qi % 5 != (rj % 5) as usize)) {
+                                continue;
+                            }
+                            spent += expect.len() + members.len() / 8;
+                            let ql = Contig::new(rname.clone(), q.0 as isize, (q.1 as i128 - q.0 as i128) as usize, ReqStrand::Forward);
+                            let mut got: Vec<(i64, i64, u32)> = Vec::new();
+                            for e in amap.find(&ql).take(cp + 2) {
+                                ensure!(e.refid() == &rname, "AnnotMap::find: query {}..{} on {}: entry reports refid {:?}; {:?}", q.0, q.1, rname, e.refid(), c);
+                                got.push((e.interval().start as i64, e.interval().end as i64, *e.data()));
+                            }
+                            validate(&format!("AnnotMap::find (insert_at, refid {})", rname), c, &w, cp, q, expect.len(), &got, &mut seen)?;
+                            ensure!(got.iter().all(|g| g.2 as usize % r == rj as usize), "AnnotMap::find (insert_at): query {}..{} on {} returned an entry filed under another reference id; {:?}", q.0, q.1, rname, c);
+                            // insert_loc map: entries carry their own location; compare as sorted (start, end, strand)
+                            let mut gl: Vec<(i64, i64, bool)> = Vec::new();
+                            for e in lmap.find(&ql).take(cp + 2) {
+                                let d = e.data();
+                                ensure!(
+                                    e.refid() == &rname && d.refid() == &rname && d.start() as i64 == e.interval().start as i64 && (d.start() as i128 + d.length() as i128) == e.interval().end as i128,
+                                    "AnnotMap::find (insert_loc): query {}..{} on {}: entry interval {:?} does not belong to its data {:?}; {:?}",
+                                    q.0,
+                                    q.1,
+                                    rname,
+                                    e.interval(),
+                                    d,
+                                    c
+                                );
+                                gl.push((e.interval().start as i64, e.interval().end as i64, d.strand() == ReqStrand::Forward));
+                            }
+                            gl.sort_unstable();
+                            let mut el: Vec<(i64, i64, bool)> = expect.iter().map(|&id| (w.iv[id as usize].0, w.iv[id as usize].1, strand_of(id as u8) == ReqStrand::Forward)).collect();
+                            el.sort_unstable();
+                            ensure!(gl == el, "AnnotMap::find (insert_loc): query {}..{} on {} ({} entries there): got {} entries {}, expected {} {}; {:?}", q.0, q.1, rname, members.len(), gl.len(), brief(&gl), el.len(), brief(&el), c);
+                            result_classes(&mut pass, expect.len(), members.len());
+                            pass.add_if(expect.len() < or.count(q.0, q.1), "annot: overlaps on other reference ids excluded");
+                        }
+                    }
+                    // a reference id without entries
+                    let ql = Contig::new("none".to_string(), w.shift as isize, 5usize, ReqStrand::Forward);
+                    ensure!(amap.find(&ql).next().is_none(), "AnnotMap::find on an unknown reference id returned an entry; {:?}", c);
+                }
+                if is_ladder(r as u64) || r <= 3 {
+                    pass.add(lab("annot reference ids", r as u64));
+                }
+                pass.add_if(r > 255, "annot: more than 255 reference ids");
+                pass.add_if(r > 65_536, "annot: more than 65536 reference ids");
+                pass.add_if(nn > 65_536, "annot: more than 65536 entries");
+                pass.add_if(nn / r > 65_536, "annot: more than 65536 entries under one reference id");
+            }
+        }
+        pass.add(match c.pat {
+            Pat::Unit => "pattern unit",
+            Pat::Wide => "pattern wide",
+            Pat::Nested => "pattern nested",
+            Pat::Spikes => "pattern spikes",
+            Pat::Random => "pattern random",
+            Pat::EqualStarts => "pattern equal starts",
+            Pat::Identical => "pattern identical intervals",
+            Pat::Dups => "pattern 300-fold duplicates",
+        });
+        pass.add(match c.order {
+            Order::Asc => "insertion order ascending",
+            Order::Desc => "insertion order descending",
+            Order::Shuffle => "insertion order shuffled",
+        });
+        pass.add(match c.offset {
+            Offset::Zero => "offset zero",
+            Offset::Straddle => "coordinates straddle zero",
+            Offset::Min => "coordinates start at i64::MIN",
+            Offset::Top => "coordinates end at i64::MAX",
+        });
+        let widest = w.iv.iter().map(|x| x.1 as i128 - x.0 as i128).max().unwrap_or(0);
+        pass.add_if(widest > 65_536, "interval wider than 65536");
+        pass.add_if(widest > 1 << 32, "interval wider than 2^32");
+        Ok(pass)
+    }
+
+    fn offset_for(k: usize) -> Offset {
+        [Offset::Zero, Offset::Zero, Offset::Straddle, Offset::Zero, Offset::Top, Offset::Zero, Offset::Min][k % 7]
+    }
+
+    pub fn array_sizes() -> Vec<u64> {
+        let mut v = pow2_triples(8, 20);
+        v.extend(LADDER.iter().copied());
+        v.sort_unstable();
+        v.dedup();
+        v
+    }
+
+    pub fn enumerate_array(t: Tier) -> Box<dyn Iterator<Item = Case>> {
+        let mut v = Vec::new();
+        let mut k = 0usize;
+        let reps = if t == Tier::Quick { 1 } else { 4 };
+        for rep in 0..reps {
+            for (i, &size) in array_sizes().iter().enumerate() {
+                let size = size as u32;
+                let big = size > 131_073;
+                // (a) n = size in one go
+                let na = if t == Tier::Thorough {
+                    if big {
+                        3
+                    } else {
+                        8
+                    }
+                } else if big {
+                    1
+                } else {
+                    2
+                };
+                for j in 0..na {
+                    k += 1;
+                    // the largest size with the unit pattern: windows return every ladder count exactly
+                    let pat = if size == 1_048_577 && j == 0 { Pat::Unit } else { PATS[(i + j * 3 + rep) % 8] };
+                    let target = if (k + rep) % 4 == 0 { Target::ArrayFromIter } else { Target::Array };
+                    v.push(Case { target, n: size, more: 0, pat, order: ORDERS[(i + 2 * j + rep) % 3], offset: offset_for(k), refids: 0, observe_all: false, seed: 0xa77 + k as u64 * 7919 + rep as u64 * 1_299_709 });
+                }
+                // (b) the same final size reached by inserts after a first index()
+                if !big || i % 3 == rep % 3 {
+                    k += 1;
+                    let more = [1u32, 17, size / 2, 300][(k + rep) % 4].min(size - 1);
+                    let target = if (k + rep) % 5 == 0 { Target::ArrayFromIter } else { Target::Array };
+                    v.push(Case { target, n: size - more, more, pat: PATS[(i + 5 + rep) % 8], order: ORDERS[(i + 1 + rep) % 3], offset: offset_for(k), refids: 0, observe_all: false, seed: 0xb88 + k as u64 * 104_723 + rep as u64 * 15_485_867 });
+                }
+            }
+        }
+        Box::new(v.into_iter())
+    }
+
+    pub fn enumerate_avl(t: Tier) -> Box<dyn Iterator<Item = Case>> {
+        let mut v = Vec::new();
+        let mut k = 0usize;
+        let reps = if t == Tier::Quick { 1 } else { 4 };
+        for rep in 0..reps {
+            // every (pattern, order) at 70001 or 131073 entries: checkpoints at every ladder value below
+            for (pi, &pat) in PATS.iter().enumerate() {
+                for (oi, &order) in ORDERS.iter().enumerate() {
+                    k += 1;
+                    let observe_all = pi == (oi + rep) % 8;
+                    let total: u32 = if observe_all && oi == rep % 3 { 131_073 } else { 70_001 };
+                    let (target, n) = if k % 6 == 0 && !observe_all { (Target::AvlFromIter, [65_537u32, 4097, 32_769][(k / 6) % 3]) } else { (Target::Avl, total - [0u32, 1, 300][k % 3]) };
+                    v.push(Case { target, n, more: total - n, pat, order, offset: offset_for(k), refids: 0, observe_all, seed: 0xa51 + k as u64 * 3571 + rep as u64 * 179_424_673 });
+                }
+            }
+        }
+        Box::new(v.into_iter())
+    }
+
+    /// 2^19+-1 and 2^20+-1 insertions (structure observed up to 131073 nodes, queries at every ladder size). Quick tier:
+    /// ascending / descending insertion only (a shuffled or random insertion order costs 2.5-6 s per case at these sizes:
+    /// thorough tier)
+    pub fn enumerate_avl_big(t: Tier) -> Box<dyn Iterator<Item = Case>> {
+        let mut v = Vec::new();
+        let mut k = 100usize;
+        let bigs: &[(u32, Pat, Order)] = &[
+            (524_287, Pat::Dups, Order::Asc),
+            (524_288, Pat::Unit, Order::Desc),
+            (524_289, Pat::Spikes, Order::Asc),
+            (1_048_575, Pat::Spikes, Order::Desc),
+            (1_048_576, Pat::Unit, Order::Asc),
+            (1_048_577, Pat::EqualStarts, Order::Desc),
+        ];
+        for &(total, pat, order) in bigs.iter() {
+            k += 1;
+            v.push(Case { target: Target::Avl, n: total, more: 0, pat, order, offset: offset_for(k), refids: 0, observe_all: false, seed: 0xa52 + k as u64 * 3571 });
+        }
+        if t == Tier::Thorough {
+            // every case must stay far below the per-case watchdog budget even on a loaded machine: at 2^20 no shuffled
+            // insertion and no random starts (6 s per case when idle), at 2^19 those are allowed (2.5 s)
+            for (j, &(total, _, _)) in bigs.iter().enumerate() {
+                for rep in 0..3usize {
+                    k += 1;
+                    let (pat, order) = if total > 600_000 {
+                        ([Pat::Unit, Pat::Spikes, Pat::Wide, Pat::Nested, Pat::Dups, Pat::EqualStarts, Pat::Identical][(j + rep * 3 + 2) % 7], [Order::Asc, Order::Desc][(j + rep) % 2])
+                    } else {
+                        (PATS[(j + rep * 3 + 2) % 8], ORDERS[(j + rep + 2) % 3])
+                    };
+                    v.push(Case { target: if k % 5 == 0 { Target::AvlFromIter } else { Target::Avl }, n: total - [0u32, 1, 70_001][rep], more: [0u32, 1, 70_001][rep], pat, order, offset: offset_for(k), refids: 0, observe_all: false, seed: 0xa53 + k as u64 * 3571 });
+                }
+            }
+        }
+        Box::new(v.into_iter())
+    }
+
+    pub fn annot_refids() -> Vec<u64> {
+        let mut v = vec![1u64, 2, 3];
+        v.extend(ladder_upto(70_001));
+        v
+    }
+
+    pub fn enumerate_annot(t: Tier) -> Box<dyn Iterator<Item = Case>> {
+        let mut v = Vec::new();
+        let mut k = 0usize;
+        let reps = if t == Tier::Quick { 1 } else { 4 };
+        for rep in 0..reps {
+            for &r in annot_refids().iter() {
+                k += 1;
+                let r = r as u32;
+                // at least two entries per reference id, at least 20000 entries; the single-reference cases hold > 65536
+                let total: u32 = if r <= 3 { [131_073u32, 70_001, 65_537][(k + rep) % 3] } else { (2 * r + 3).max(20_000) };
+                let more = [0u32, 1, total / 3][(k + rep) % 3];
+                v.push(Case { target: Target::Annot, n: total - more, more, pat: PATS[(k + rep * 3) % 8], order: ORDERS[(k + rep) % 3], offset: offset_for(k + 1), refids: r, observe_all: false, seed: 0xa99 + k as u64 * 2741 + rep as u64 * 32_452_867 });
+            }
+        }
+        Box::new(v.into_iter())
+    }
+
+    pub fn strat(_t: Tier) -> BoxedStrategy<Case> {
+        let near: Vec<u32> = ladder_upto(131_073).into_iter().map(|v| v as u32).collect();
+        let total = prop_oneof![
+            5 => 300u32..=30_000,
+            4 => (proptest::sample::select(near), -3i32..=3).prop_map(|(v, d)| (v as i64 + d as i64) as u32),
+            1 => 30_000u32..=200_000,
+        ];
+        let target = prop_oneof![3 => Just(Target::Array), 1 => Just(Target::ArrayFromIter), 3 => Just(Target::Avl), 1 => Just(Target::AvlFromIter), 2 => Just(Target::Annot)];
+        let offset = prop_oneof![3 => Just(Offset::Zero), 1 => Just(Offset::Straddle), 1 => Just(Offset::Min), 1 => Just(Offset::Top)];
+        (target, total, any::<u16>(), proptest::sample::select(PATS.to_vec()), proptest::sample::select(ORDERS.to_vec()), offset, prop_oneof![1u32..=4, 200u32..=300, 1u32..=70_000], any::<u64>())
+            .prop_map(|(target, total, mf, pat, order, offset, refids, seed)| {
+                let total = if target == Target::Annot { total.min(131_073) } else { total };
+                // more: nothing (1/4), or a fraction of the total
+                let more = if mf % 4 == 0 { 0 } else { ((total as u64 - 1) * (mf as u64) >> 16) as u32 };
+                Case { target, n: total - more, more, pat, order, offset, refids: if target == Target::Annot { refids } else { 0 }, observe_all: seed % 8 == 0, seed }
+            })
+            .boxed()
+    }
+
+    pub fn must_array() -> &'static [&'static str] {
+        let mut v = labels("array n", &array_sizes());
+        v.extend(labels("results of one query", &LADDER));
+        v.extend([
+            "results of one query > 512",
+            "results of one query > 65536",
+            "query returns all of > 65536 entries",
+            "array: indexed and queried with n >= 2^20",
+            "array: from_iter with n > 65536",
+            "array: re-index after more inserts, n > 65536",
+            "insertion order ascending",
+            "insertion order descending",
+            "insertion order shuffled",
+            "coordinates start at i64::MIN",
+            "coordinates end at i64::MAX",
+            "interval wider than 2^32",
+            "pattern unit",
+            "pattern wide",
+            "pattern nested",
+            "pattern spikes",
+            "pattern random",
+            "pattern equal starts",
+            "pattern identical intervals",
+            "pattern 300-fold duplicates",
+        ]);
+        leak_list(v)
+    }
+
+    pub fn must_avl() -> &'static [&'static str] {
+        let mut v = labels("avl n", &ladder_upto(131_073));
+        v.extend(labels("avl structure observed at n", &ladder_upto(131_073)));
+        v.extend(labels("results of one query", &ladder_upto(131_073)));
+        v.extend([
+            "results of one query > 65536",
+            "avl: queried with n > 65536",
+            "avl: from_iter with n > 65536",
+            "AVL height >= 17",
+            "insertion order ascending",
+            "insertion order descending",
+            "insertion order shuffled",
+            "pattern equal starts",
+            "pattern identical intervals",
+            "coordinates start at i64::MIN",
+            "coordinates end at i64::MAX",
+        ]);
+        leak_list(v)
+    }
+
+    pub fn must_avl_big() -> &'static [&'static str] {
+        let mut v = labels("avl n", &LADDER);
+        v.extend(labels("avl structure observed at n", &[131_071, 131_072, 131_073]));
+        v.extend(["results of one query > 65536", "query returns all of > 65536 entries", "avl: queried with n >= 2^20", "insertion order ascending", "insertion order descending"]);
+        leak_list(v)
+    }
+
+    pub fn must_annot() -> &'static [&'static str] {
+        let mut v = labels("annot reference ids", &annot_refids());
+        v.extend([
+            "annot: more than 65536 reference ids",
+            "annot: more than 65536 entries",
+            "annot: more than 65536 entries under one reference id",
+            "annot: overlaps on other reference ids excluded",
+            "results of one query > 512",
+            "coordinates end at i64::MAX",
+        ]);
+        let _ = intern;
+        leak_list(v)
+    }
+}
+
 pub fn property() -> Property {
     Property {
         id: "C07",
-        rule: "history: vec of insert/find/index operations (0..40, 0..120 or 100..320 ops; starts in 0..=5/25/200, widths 1..=1/3/12/55, data mostly from 3 values so that exact duplicates occur, 1-3 reference ids; insertion starts as generated, sorted ascending, descending or zig-zag; keys i64 at offsets 0, -100, 2^40, i64::MIN, i64::MAX-255, or u8) run in lock-step on IntervalTree, ArrayBackedIntervalTree, AnnotMap (insert_at and insert_loc) and a Vec model. Every find compares the sorted (start,end,data) multisets of IntervalTree::find, find_mut, ArrayBackedIntervalTree::find and find_into (indexed; an un-indexed query must panic) and AnnotMap::find on the queried refid with the model filtered by s<qe && qs<e. After every insertion the AVL tree is read through its derived Serialize impl: |h(left)-h(right)|<=1 at every node, stored subtree maximum >= the largest end in the subtree, in-order starts non-decreasing, node multiset = inserted entries. array-sizes: n entries (uniform 0..=300 and 2^k-2..2^k+2), index, 1-12 queries, more inserts, refusal, re-index, from_iter. exhaustive: all insertion sequences up to the stated length over 4 starts x 2 widths and all permutations of 7 (8) distinct starts with two width patterns, all queries. Non-trivial = at least 8 entries and a query that overlaps at least one entry and excludes at least one; distinct = distinct serialised case.",
+        rule: "history: vec of insert/find/index operations (0..40, 0..120 or 100..320 ops; starts in 0..=5/25/200, widths 1..=1/3/12/55, data mostly from 3 values so that exact duplicates occur, 1-3 reference ids; insertion starts as generated, sorted ascending, descending or zig-zag; keys i64 at offsets 0, -100, 2^40, i64::MIN, i64::MAX-255, or u8) run in lock-step on IntervalTree, ArrayBackedIntervalTree, AnnotMap (insert_at and insert_loc) and a Vec model. Every find compares the sorted (start,end,data) multisets of IntervalTree::find, find_mut, ArrayBackedIntervalTree::find and find_into (indexed; an un-indexed query must panic) and AnnotMap::find on the queried refid with the model filtered by s<qe && qs<e. After every insertion the AVL tree is read through its derived Serialize impl: |h(left)-h(right)|<=1 at every node, stored subtree maximum >= the largest end in the subtree, in-order starts non-decreasing, node multiset = inserted entries. array-sizes: n entries (uniform 0..=300 and 2^k-2..2^k+2), index, 1-12 queries, more inserts, refusal, re-index, from_iter. exhaustive: all insertion sequences up to the stated length over 4 starts x 2 widths and all permutations of 7 (8) distinct starts with two width patterns, all queries. Non-trivial = at least 8 entries and a query that overlaps at least one entry and excludes at least one; distinct = distinct serialised case. Large-scale sub-checks (large-*): cases are generator parameters {target, n, more, pattern, insertion order, coordinate offset, reference ids, seed} expanded with splitmix64; every entry carries a unique id; the expected number of results of a query is #(start<qe) - #(end<=qs) from sorted copies, every returned entry is checked (known id, interval as inserted, overlaps, not twice). Array-backed tree: n = every 2^k-1, 2^k, 2^k+1 for k=8..20 and the ladder 255..257, ..., 65535..65537, 70001, 131071..131073, 2^19+-1, 2^20+-1, in one go and reached by further inserts after a first index() (refusal while un-indexed, re-index), through new+insert+index and through from_iter; queries: everything, left/right of everything, windows returning every ladder count, point queries around the entries of rank first/last, 2^k-1, 2^k, ladder +-2 (left-most and right-most leaf blocks, root), spike ends, random windows; find and find_into with one reused buffer. AVL tree: up to 2^20+1 insertions (ascending, descending, shuffled; eight interval patterns incl. all starts equal, identical intervals, 300-fold duplicates, nested, far-reaching spikes); at every ladder size the structure is observed (balance, stored max, order, node set; up to 131073 nodes) and queried through find and find_mut; IntervalTree::from_iter. AnnotMap: 1..70001 reference ids (ladder), >= 20000 entries, up to 131073 under one reference id, insert_at and insert_loc, queries on sampled reference ids and an unknown one. Coordinates at offset 0, straddling 0, starting at i64::MIN, ending at i64::MAX; widths up to 2^40.",
         assumptions: &[
             "intervals and queries have positive width (start < end); zero-width and reversed ranges are outside the property",
             "AnnotMap positions stay within isize so that start+length does not overflow",
             "the AVL structure is observed through IntervalTree's derived Serialize impl (root/{interval,value,max,height,left,right}); a changed shape is reported as 'observation lost', not as a violation",
         ],
         subs: vec![
+            // the enumerated ladders are single long jobs: queued first so that they overlap with everything else
+            Box::new(ExhSub { name: "C07/large-array-ladder", enumerate: large::enumerate_array, check: large::check, must_reach: large::must_array() }),
+            Box::new(ExhSub { name: "C07/large-avl-ladder", enumerate: large::enumerate_avl, check: large::check, must_reach: large::must_avl() }),
+            Box::new(ExhSub { name: "C07/large-avl-big", enumerate: large::enumerate_avl_big, check: large::check, must_reach: large::must_avl_big() }),
+            Box::new(ExhSub { name: "C07/large-annot-ladder", enumerate: large::enumerate_annot, check: large::check, must_reach: large::must_annot() }),
+            Box::new(PropSub {
+                name: "C07/large-random",
+                quick: 320,
+                thorough: 6_400,
+                shards_quick: 16,
+                shards_thorough: 16,
+                strat: large::strat,
+                check: large::check,
+                must_reach: &["array: re-index after more inserts", "array: from_iter", "avl: from_iter", "annot: more than 255 reference ids", "results of one query > 512"],
+                watch: true,
+            }),
             Box::new(PropSub {
                 name: "C07/history",
                 quick: 16_000,
